@@ -158,6 +158,26 @@ pub fn workload(tier: Tier) -> Vec<Work> {
             }
         }
     }
+    // B2c: literal PC offsets in the last statements a program can have (statement numbers
+    // 65533..65535) and around 2^15: `line + 1 + offset` wraps there
+    for pad in [0xFFFCu32, 0xFFFD, 0xFFFE, 0x7FFD, 0x7FFE, 0x7FFF] {
+        for kind in [4usize, 6, 9, 11] {
+            let (_, bits, _) = stmts_with_lit(kind, Lit::dec(0));
+            let m = 1i32 << (bits - 1);
+            for v in [-m - 1, -m, -1, 0, 1, m - 1, m] {
+                let mut prog = Program::default();
+                let mut left = pad;
+                while left > 0 {
+                    let c = left.min(0x7FFF);
+                    prog.push(None, Stmt::Blkw(Lit::hex(c as u16)));
+                    left -= c;
+                }
+                let (stmt, _, _) = stmts_with_lit(kind, Lit::dec(v));
+                prog.push(None, stmt);
+                w.push(Work { space: "B2c/literal-offset-in-last-statements", prog, stack: false, layout: Layout::PLAIN });
+            }
+        }
+    }
     // B3: full unsigned ranges: every .orig value, every TRAP vector value up to 300
     for o in 0..=0xFFFFu32 {
         for lit in [Lit::hex(o as u16), Lit::dec(o as i32)] {
